@@ -1231,7 +1231,11 @@ def rule_R7(F, R):
                     st = ref_base(fl, bo[1]["args"][0])
                     ssl = fl.slice_local(st) if st is not None else None
                     from_ws = bool(ssl and ssl.has_call(r"StorageTxn::get_working_set$"))
-                    cutters = sorted({x.split("::")[-1] for x in (ssl.call_names() if ssl else ()) if re.search(r"Iterator::(map_while|take_while|take|skip_while|step_by|filter|nth|last|find)$", x)})
+                    # only adaptors applied to the stored working set itself count (the set also receives the uuids
+                    # being added, which may come out of a filtered iteration over the batch)
+                    cutters = sorted({x.split("::")[-1] for (_cb, ct) in (ssl.calls.items() if ssl else ()) for x in call_names(ct)
+                                      if re.search(r"Iterator::(map_while|take_while|take|skip_while|step_by|filter|nth|last|find)$", x)
+                                      and ct.get("args") and fl.slice_operand(ct["args"][0]).has_call(r"StorageTxn::get_working_set$")})
                     if from_ws and cutters:
                         verdict = verdict or "the membership set is built from the stored working set through %s: it stops at the first gap / leaves entries out, so a task that holds a slot behind a gap is added again" % cutters[0]
                         continue
@@ -1247,7 +1251,13 @@ def rule_R7(F, R):
                 elif any(re.search(r"(HashSet::<T, S, A>|BTreeSet::<T, A>)::insert$", x) for x in names) and on_true:
                     st = ref_base(fl, bo[1]["args"][0])
                     ssl = fl.slice_local(st) if st is not None else None
-                    verdict = "ok" if (ssl and ssl.has_call(r"StorageTxn::get_working_set$")) else (verdict or "the membership set is not initialised from the stored working set")
+                    cutters2 = sorted({x.split("::")[-1] for (_cb, ct) in (ssl.calls.items() if ssl else ()) for x in call_names(ct)
+                                       if re.search(r"Iterator::(map_while|take_while|take|skip_while|step_by|filter|nth|last|find)$", x)
+                                       and ct.get("args") and fl.slice_operand(ct["args"][0]).has_call(r"StorageTxn::get_working_set$")})
+                    if ssl and ssl.has_call(r"StorageTxn::get_working_set$") and cutters2:
+                        verdict = verdict or "the membership set is built from the stored working set through %s: it stops at the first gap / leaves entries out, so a task that holds a slot behind a gap is added again" % cutters2[0]
+                    else:
+                        verdict = "ok" if (ssl and ssl.has_call(r"StorageTxn::get_working_set$")) else (verdict or "the membership set is not initialised from the stored working set")
             if verdict == "ok":
                 R.ok("R7", "add_to_working_set guarded by a membership set that is kept up to date", where(b, i))
             else:
@@ -1323,6 +1333,17 @@ def rule_ERR(F, R):
 
     def is_writer(name):
         return name.startswith(TXN + "::") and name.split("::")[-1] in writers
+    _wt = {}
+
+    def writes_through(name):
+        """a taskdb function that itself writes the storage (apply_op, ...): its error is a storage-writing step's error"""
+        if name not in _wt:
+            nb = F.bodies.get(name)
+            ok_ = False
+            if nb is not None and name.startswith("taskdb::") and nb["kind"] in ("Fn", "AssocFn"):
+                ok_ = roles.cone_reaches(F, name, lambda t_: any(is_writer(x) for x in call_names(t_)))
+            _wt[name] = ok_
+        return _wt[name]
     targets = []
     aof = roles.apply_operations_fn(F)
     if aof:
@@ -1364,7 +1385,7 @@ def rule_ERR(F, R):
         for p in paths:
             failed = p.end[0] == "return" and p.ret and ((p.ret[0] == "A" and p.ret[2] == "Err") or _err_residual(p.ret))
             for e in p.events:
-                if not any(is_writer(x) for x in e["names"]):
+                if not any(is_writer(x) or writes_through(x) for x in e["names"]):
                     continue
                 step = e["callee"].split("::")[-1]
                 examined.add(step)
